@@ -1,5 +1,5 @@
 #!/usr/bin/env python3
-"""Unclaimed aid for C09 (see tools/not_applicable.json): runs `python main.py` twice per generated world in fresh
+"""Stand-alone aid for C09 (superseded by the S-repro stream of `./check C09`, harness/props/c09.py): runs `python main.py` twice per generated world in fresh
 processes under different PYTHONHASHSEEDs and compares the CSV traces after masking the measured wall-clock field of
 SCHEDULER_FINISHED rows.  Exit 0 if all traces agree.   tools/repro_check.py [n_worlds] [seed]"""
 import os
